@@ -174,10 +174,21 @@ impl Exec {
             "deliver -> n{node}: {:?}",
             batch.iter().map(|m| changeset_brief(&m.change)).collect::<Vec<_>>()
         ));
+        self.trace_pk(node, "BEFORE the next delivery");
+        if std::env::var_os("VH_TRACE_PK").is_some() {
+            for m in batch.iter() {
+                if let Changeset::Full { changes, version, .. } = &m.change.changeset {
+                    for ch in changes {
+                        eprintln!("   change in batch: v{} {}.{} pk={} val={:?} cv{} cl{} seq{}", version.0, ch.table.0, ch.cid.0, super::hex(&ch.pk), format!("{:?}", ch.val).chars().take(24).collect::<String>(), ch.col_version, ch.cl, ch.seq.0);
+                    }
+                }
+            }
+        }
         let r = self.nodes[node]
             .deliver(batch.into_iter().map(|m| (m.change, m.src)).collect())
             .await;
         self.collect_hooks();
+        self.trace_pk(node, self.log.last().map(|s| s.as_str()).unwrap_or("deliver"));
         match r {
             Err(e) if e.starts_with("PANIC: ") => {
                 self.note(format!("  -> {e}"));
@@ -186,6 +197,18 @@ impl Exec {
             }
             other => other,
         }
+    }
+
+    /// debugging aid: VH_TRACE_PK=<hex pk> prints the cell metadata of that key on a node
+    pub fn trace_pk(&self, node: usize, what: &str) {
+        let Ok(pk) = std::env::var("VH_TRACE_PK") else { return };
+        let Ok(c) = self.nodes[node].ro() else { return };
+        let Ok(mut st) = c.prepare(r#"SELECT "table", cid, quote(val), col_version, db_version, seq, hex(site_id), cl FROM crsql_changes WHERE hex(pk) = ? ORDER BY 1, 2"#) else { return };
+        let rows: Vec<String> = st
+            .query_map([pk], |r| Ok(format!("{}.{}={} cv{} dbv{} seq{} site{} cl{}", r.get::<_, String>(0)?, r.get::<_, String>(1)?, r.get::<_, String>(2)?.chars().take(12).collect::<String>(), r.get::<_, i64>(3)?, r.get::<_, i64>(4)?, r.get::<_, i64>(5)?, &r.get::<_, String>(6)?[..4], r.get::<_, i64>(7)?)))
+            .map(|it| it.filter_map(Result::ok).collect())
+            .unwrap_or_default();
+        eprintln!("TRACE n{node} after {what}: {rows:?}");
     }
 
     pub fn collect_hooks(&mut self) {
@@ -211,6 +234,7 @@ impl Exec {
                 self.stat("apply.buffered_versions_with_impact", 1);
             }
             self.note(format!("apply n{node}: {}:v{v} impact={applied}", &actor.to_string()[..6]));
+            self.trace_pk(node, "apply");
         }
         self.collect_hooks();
         Ok(())
